@@ -256,7 +256,7 @@ def replay_barrier(rec):
     return False, 'Db agrees with -dD/dbeta (rel %.1e)' % (np.abs(fd - Db).max() / sc)
 
 
-XCASES = ['X1s', 'X1', 'X4r', 'X2', 'X5', 'X3']
+XCASES = ['X1s', 'X1', 'X4r', 'X2', 'X5', 'X3', 'X1si', 'X2b']
 QUICK = ['hcpoct', 'bccoct', 'rumpled', 'rect2', 'mono', 'honeycomb']
 THOROUGH = QUICK + ['fccint', 'wurtzite']
 
@@ -270,7 +270,7 @@ def sections(tier):
     for c, k in plan:
         secs.append(S('strain:%s:%d' % (c, k), strain_derivative(c, k), budget_s=175 if tier == 'quick' else 1200, replayer='strain',
                       config=c, maxpaths=4, timeout_ms=60000))
-    for c in (['X1s', 'X1', 'X4r'] if tier == 'quick' else ['X1s', 'X1', 'X4r', 'X2', 'X3']):
+    for c in (['X1s', 'X1', 'X4r', 'X2', 'X3', 'X1si'] if tier == 'quick' else ['X1s', 'X1', 'X4r', 'X2', 'X3', 'X1si', 'X2b', 'X5']):
         secs.append(S('barrier:' + c, barrier(c), budget_s=175 if tier == 'quick' else 1200, replayer='barrier', config=c, maxpaths=16,
                       timeout_ms=60000 if tier == 'quick' else 120000))
     return secs
